@@ -193,12 +193,16 @@ func normalizeRef(opts *FlattenOpts) error {
 			continue
 		}
 
+		// strip the base path, and nothing else: the $ref may be a JSON pointer to some part of a definition
+		stripped := strings.TrimPrefix(w.String(), opts.BasePath)
+		if stripped == w.String() {
+			continue
+		}
+
 		altered = true
 		debugLog("stripping absolute path for: %s", w.String())
 
-		// strip the base path from definition
-		if err := replace.UpdateRef(opts.Swagger(), k,
-			spec.MustCreateRef(path.Join(definitionsPath, path.Base(w.String())))); err != nil {
+		if err := replace.UpdateRef(opts.Swagger(), k, spec.MustCreateRef(stripped)); err != nil {
 			return err
 		}
 	}
